@@ -11,23 +11,25 @@ template <class T> using AM = amc::allocator<T>;
 typedef SimCmpT<0, false> Cmp0;
 typedef SimCmpT<1, false> Cmp1;
 typedef SimCmpT<0, true> CmpT;
+typedef SimCmpSelfT<2> CmpS;  // self-referencing, not trivially relocatable
 
 template <class E>
 SetFamily *make_set_family_flat(const char *name, const char *elem) {
   return SetFamilyBuilder<amc::FlatSet<E, Cmp0, AB<E>, amc::vector<E, AB<E>>>, amc::FlatSet<E, Cmp1, AB<E>, amc::vector<E, AB<E>>>,
                           amc::FlatSet<E, CmpT, AS<E>, amc::SmallVector<E, 4, AS<E>>>,
                           amc::FlatSet<E, Cmp0, amc::vec::EmptyAlloc, amc::FixedCapacityVector<E, 12>>,
-                          amc::FlatSet<E, Cmp0, AS<E>, std::vector<E, AS<E>>>, amc::FlatSet<E, CmpT, AM<E>>>::
+                          amc::FlatSet<E, Cmp0, AS<E>, std::vector<E, AS<E>>>, amc::FlatSet<E, CmpT, AM<E>>,
+                          amc::FlatSet<E, CmpS, AB<E>, amc::vector<E, AB<E>>>>::
       build(name, elem, {"FlatSet<vector<B>>", "FlatSet<vector<B>,cmp1>", "FlatSet<SmallVector<4,S>,transparent>", "FlatSet<Fixed<12>>", "FlatSet<std::vector<S>>",
-                         "FlatSet<vector<M>,transparent>"});
+                         "FlatSet<vector<M>,transparent>", "FlatSet<vector<B>,selfcmp>"});
 }
 template <class E>
 SetFamily *make_set_family_small(const char *name, const char *elem) {
   return SetFamilyBuilder<amc::SmallSet<E, 3, Cmp0, AS<E>>, amc::SmallSet<E, 1, Cmp0, AS<E>>, amc::SmallSet<E, 5, Cmp1, AS<E>>,
                           amc::SmallSet<E, 3, CmpT, AB<E>, amc::FlatSet<E, CmpT, AB<E>>>, amc::SmallSet<E, 8, CmpT, AB<E>, amc::FlatSet<E, CmpT, AB<E>>>,
-                          amc::SmallSet<E, 2, Cmp0, AM<E>>>::
+                          amc::SmallSet<E, 2, Cmp0, AM<E>>, amc::SmallSet<E, 2, CmpS, AB<E>, amc::FlatSet<E, CmpS, AB<E>>>>::
       build(name, elem, {"SmallSet<3,std::set<S>>", "SmallSet<1,std::set<S>>", "SmallSet<5,std::set<S>,cmp1>", "SmallSet<3,FlatSet<B>,transparent>",
-                         "SmallSet<8,FlatSet<B>,transparent>", "SmallSet<2,std::set<M>>"});
+                         "SmallSet<8,FlatSet<B>,transparent>", "SmallSet<2,std::set<M>>", "SmallSet<2,FlatSet<B>,selfcmp>"});
 }
 }  // namespace sim
 
